@@ -41,7 +41,7 @@ ANCHORS = [
     ('pjrpc/client/retry.py', 'retry'), ('pjrpc/client/retry.py', 'retry_async'),
 ]
 FLOORS = {'*': {'pair:dispatch-text': 3000, 'pair:dispatch-plain-vs-coroutine': 3000, 'pair:middleware': 500, 'pair:retry': 500,
-                'pair:notation': 300, 'pair:match': 300, 'pair:notification-body': 150, 'pair:batch-object-reused': 30, 'retry:with-tracers': 200, 'retry:retried': 200, 'pair:trace': 300,
+                'pair:notation': 300, 'pair:match': 300, 'pair:notification-body': 150, 'pair:batch-object-reused': 30, 'pair:call-answered-with-an-odd-body': 100, 'retry:with-tracers': 200, 'retry:retried': 200, 'pair:trace': 300,
                 'middleware:failing-with-handlers': 100}}
 
 
@@ -348,6 +348,41 @@ def run_batch_reuse(ctx, program, via_proxy, fail_first):
                                        'observation': obs[False]})
 
 
+BIG = '1' + '0' * 5000
+CALL_BODIES = [
+    '{"jsonrpc": "2.0", "id": 5, "result": %s}' % BIG, '{"jsonrpc": "2.0", "id": 5, "result": [1, {"k": -%s}]}' % BIG,
+    '{"jsonrpc": "2.0", "id": %s, "result": 1}' % BIG, '{"jsonrpc": "2.0", "id": 5, "error": {"code": %s, "message": "m"}}' % BIG,
+    '{"jsonrpc": "2.0", "id": 5, "result": NaN}', '{"jsonrpc": "2.0", "id": 5, "result": Infinity}', '{"jsonrpc": "2.0", "id": 5, "result": 1e999}',
+    '', ' ', 'null', '[]', '{}', '\ufeff{"jsonrpc": "2.0", "id": 5, "result": 1}', '{"jsonrpc": "2.0", "id": 5, "result": 1',
+    '{"jsonrpc": "2.0", "id": 5, "result": 1} trailing', '{"jsonrpc": "2.0", "id": 5, "result": "\ud800"}',
+    '{"jsonrpc": "2.0", "id": 5, "id": 6, "result": 1}', '[' * 2000, '{"jsonrpc": "2.0", "id": 5, "result": ' + '[' * 1200 + ']' * 1200 + '}',
+]
+
+
+def run_call_body(ctx, body, strict, kind, n_tracers):
+    """whatever text the transport hands back for a call: decoder failures of every kind must look the same on both halves"""
+    obs = {}
+    for is_async in (False, True):
+        log = []
+        tracers = [c19.Rec(i, log) for i in range(n_tracers)]
+        cls_ = clientside.AsyncClient if is_async else clientside.SyncClient
+        client = cls_(lambda text, is_notification, kwargs: body, tracers=tracers, strict=strict)
+        if kind == 'batch':
+            req = v20.BatchRequest(v20.Request('a', [1], id=5), v20.Request('b', [2], id=6))
+            st, out = clientside.outcome_of(lambda: client.batch.send(req), is_async)
+        else:
+            st, out = clientside.outcome_of(lambda: client.send(v20.Request('m', [1], id=5)), is_async)
+        obs[is_async] = {'outcome': norm_out(st, out), 'tracer-events': [(e[0], e[1], type(e[4]).__name__) for e in log]}
+    ctx.hit('pair:call-answered-with-an-odd-body')
+    cls = (body[:80], len(body), strict, kind, n_tracers)
+    for aspect in ('outcome', 'tracer-events'):
+        if obs[False][aspect] != obs[True][aspect]:
+            ctx.violation(f'client-halves-differ:{aspect}:call-answered-with-an-odd-body', 'call-body', cls, body=body[:200], body_length=len(body),
+                          strict=strict, kind=kind, sync=obs[False][aspect], asynchronous=obs[True][aspect])
+            return
+    ctx.ok('call-body', cls, sample={'body': body[:120], 'kind': kind, 'observation': obs[False]})
+
+
 NOTIFY_BODIES = [None, '', ' ', '\n', '\t\r\n ', 'null', '[]', '{}', '""', '0', '{"jsonrpc": "2.0", "id": null, "result": 1}',
                  '{"jsonrpc": "2.0", "id": 5, "result": 1}', '[{"jsonrpc": "2.0", "id": 1, "result": 1}]', 'garbage', '\ufeff', 'é']
 
@@ -438,6 +473,11 @@ def gen(ctx):
         for via_proxy in (False, True):
             for fail_first in (False, True):
                 yield 'batch-reuse', dict(program=program, via_proxy=via_proxy, fail_first=fail_first)
+    for body in CALL_BODIES:
+        for strict in (True, False):
+            for kind in ('send', 'batch'):
+                for nt in (0, 2):
+                    yield 'call-body', dict(body=body, strict=strict, kind=kind, n_tracers=nt)
     for body in NOTIFY_BODIES:
         for strict in (True, False):
             for kind in ('send', 'notify', 'batch'):
@@ -470,4 +510,5 @@ def gen(ctx):
 
 
 KINDS = {'text': run_text, 'mw': run_mw, 'retry': run_retry, 'notation': run_notation, 'match': run_match, 'trace': run_trace,
-         'notify-body': run_notify_body, 'batch-reuse': run_batch_reuse}
+         'notify-body': run_notify_body, 'batch-reuse': run_batch_reuse,
+         'call-body': run_call_body}
